@@ -168,6 +168,16 @@ func (p *Program) registerTypeKeys(t types.Type, seen map[types.Type]bool) {
 			p.registerFieldType(u.Field(i).Type(), seen)
 		}
 	default:
+		if m, ok := t.Underlying().(*types.Map); ok {
+			base := "M:" + typeName(t)
+			p.keySorts[base+"#has"] = SAr2B
+			func() {
+				defer func() { recover() }()
+				for _, lf := range leavesOf(m.Elem()) {
+					p.keySorts[base+lf.suffix+"#v"] = arrayOf(arrayOf(lf.sort))
+				}
+			}()
+		}
 		p.registerFieldType(t, seen)
 	}
 }
@@ -259,6 +269,11 @@ func (p *Program) modifiesKeys(x *Exec, fn *ssa.Function, fc *FuncContract) (key
 			var path []int
 			tt := pt.Elem()
 			for _, name := range it.path {
+				if pp, isPtr := tt.Underlying().(*types.Pointer); isPtr {
+					pt = pp
+					tt = pp.Elem()
+					path = nil
+				}
 				stt, ok := tt.Underlying().(*types.Struct)
 				if !ok {
 					return nil, false, true
